@@ -10,7 +10,8 @@ PID = 'C07'
 PROPS_MODULE = 'SympdeModel.Props.C07'
 RULE = ('random bilinear and linear forms integrated over the interface of a two-patch domain (2D and 3D, scalar and vector '
         'arguments), integrands built from jump, minus/plus restrictions, the normal vector, constants, coordinates and '
-        'restricted coefficient fields (penalty / consistency / symmetry type terms); also systems (two or three trial / test '
+        'restricted coefficient fields (penalty / consistency / symmetry type terms), restrictions of products of three or '
+        'four non-constant factors (coordinates, coefficient field, the argument or its normal derivative); also systems (two or three trial / test '
         'functions, scalar and vector valued, in any order) and forms lowered a second time with the roles of their '
         'arguments exchanged; a case is one form; non-trivial = at least two pieces non-empty; distinct by printed form')
 ASSUMPTIONS = [
@@ -74,6 +75,17 @@ def part(rng, w, fun, vec):
         return op, r(fun), 'v'
     if k < 0.6:
         return op, r(fun), 's'
+    if op != 'jump' and k < 0.75:
+        # the restriction of a PRODUCT of three or four non-constant factors, the function (or its normal flux)
+        # among them: weights taken from the coordinates and the coefficient field (added after seeded change
+        # C07-10, which left the tail of such a product unevaluated inside the restriction)
+        ws = rng.sample(list(w.coords) + [w.f], rng.choice([2, 2, 3]))
+        # the flux is written Dn(fun): the restriction of dot(grad(fun), nn) with an explicit normal is NOT
+        # generated — minus(dot(grad(u), nn)) stays unevaluated on the unchanged repo and is split wrongly
+        # (reported as a suspected defect, see notes/C07.md)
+        from sympde.calculus import Dn
+        core = fun if rng.random() < 0.7 else Dn(fun)
+        return op, r(sympy.Mul(*ws) * core), 's'
     if op == 'jump':
         return op, m['dot'](m['grad'](m['minus'](fun)), w.nn) - m['dot'](m['grad'](m['plus'](fun)), w.nn), 's'
     return op, m['dot'](m['grad'](r(fun)), w.nn), 's'
@@ -293,6 +305,10 @@ def corpus(w):
     if w.dim == 2:
         # open finding: a coefficient restricted to the minus side ends up, unrestricted, in the plus face's kernel
         out.append(('corpus:jump(v)*minus(f)', 'linear', None, w.v, m['jump'](w.v) * m['minus'](w.f)))
+        # open finding: a restriction applied to the written-out normal derivative dot(grad(u), nn) stays
+        # unevaluated (the splitter finds no minus(u) in it): spurious plus-face and (plus u, minus v) kernels
+        out.append(('corpus:minus(dot(grad(u),nn))*jump(v)', 'bilinear', w.u, w.v,
+                    m['minus'](m['dot'](m['grad'](w.u), w.nn)) * m['jump'](w.v)))
         # repaired by 548b25b: the plus-side piece of a linear form did not reverse the normal
         out.append(('corpus:linear dot(grad(plus(v)),nn)', 'linear', None, w.v,
                     m['dot'](m['grad'](m['minus'](w.v)), w.nn) - m['dot'](m['grad'](m['plus'](w.v)), w.nn)))
@@ -344,6 +360,23 @@ def corpus(w):
         vecf = dot(jump(U), nn) * jump(v) + dot(minus(U), nn) * plus(v)
         out.append(('corpus:history vector flux (U;v)', 'bilinear', U, v, vecf))
         out.append(('corpus:history vector flux transposed (v;U)', 'bilinear', v, U, vecf))
+        # ---- a restriction applied to a product of three or more non-constant factors (coordinates, the
+        # coefficient field, the trial / test function or its normal derivative): the restriction of a product is
+        # the product of the restrictions, whatever the number of factors (seeded change C07-10 kept the tail of
+        # such a product unevaluated, and the splitter no longer found the restricted function in it)
+        f = w.f
+        out.append(('corpus:product minus(x*y*u)*jump(v)', 'bilinear', u, v, minus(x * y * u) * jump(v)))
+        out.append(('corpus:product kappa*plus(f*y*u)*jump(v)', 'bilinear', u, v, kappa * plus(f * y * u) * jump(v)))
+        out.append(('corpus:product minus(f*x*Dn(u))*jump(v)', 'bilinear', u, v, minus(f * x * Dn(u)) * jump(v)))
+        out.append(('corpus:product jump(u)*plus(x*y*f*v)', 'bilinear', u, v, jump(u) * plus(x * y * f * v)))
+        out.append(('corpus:product minus(x*y*u)*plus(f*x*Dn(v))', 'bilinear', u, v,
+                    minus(x * y * u) * plus(f * x * Dn(v))))
+        out.append(('corpus:product linear minus(x*y*v)-plus(f*x*v)', 'linear', None, v,
+                    minus(x * y * v) - plus(f * x * v)))
+        out.append(('corpus:product linear plus(f*y*Dn(v))', 'linear', None, v, plus(f * y * Dn(v))))
+        out.append(('corpus:product system (u,p;q,v) minus(x*y*u)*jump(q)+plus(f*x*p)*jump(v)', 'bilinear', (u, p), (q, v),
+                    minus(x * y * u) * jump(q) + plus(f * x * p) * jump(v)))
+        out.append(('corpus:product dot(plus(x*y*U),nn)*jump(v)', 'bilinear', U, v, dot(plus(x * y * U), nn) * jump(v)))
     return out
 
 
